@@ -193,6 +193,8 @@ class Attempt:
                 self.rh.append((p[1], p[2]))
             elif p[0] in ("w", "wc", "wn", "ws", "wf"):  # how the handler writes: Write, io.Copy, io.CopyN, io.WriteString, fmt.Fprintf
                 l, s2 = p[1].split(".")
+                if int(l) == 0 and p[0] in ("wc", "wn"):
+                    continue  # io.Copy / io.CopyN of an empty source: no call reaches a writer without ReadFrom
                 self.writes.append((int(l), int(s2)))
 
     def total(self):
@@ -567,6 +569,9 @@ def gen_attempt(rng, c, reqlen, focus, will_retry_bias, hkeys=()):
         tot += l
         # io.Copy/io.CopyN move at most 32 KiB per Write and make no call at all for 0 bytes: only where one call = one Write
         how = rng.choice(["w", "w", "w", "wc", "wc", "wn", "ws", "wf"]) if 0 < l <= 30000 else rng.choice(["w", "w", "ws", "wf"])
+        if rng.random() < 0.04:
+            tot -= l
+            l, how = 0, rng.choice(["wc", "wn"])  # copying an empty source (an upstream body that turned out empty) after / before real writes
         f.append("%s:%d.%d" % (how, l, rng.randint(0, 99999)))
     if rng.random() < 0.05:
         f.append("lh:%s:l%d" % (rng.choice(["X-R", "X-L"]), rng.randint(0, 9)))
@@ -614,6 +619,8 @@ def gen_scenarios(rng, tier, focus):
             for _ in range(rng.choice([0, 1, 2, 3])):
                 hs.append("%s:v%d" % (rng.choice(["X-A", "X-B", "X-C", "X-D"]), rng.randint(0, 99)))
             toks = ["req", method, url, rng.choice(["cl", "ch"]), str(ln), str(rng.randint(0, 99999))]
+            if toks[3] == "ch" and rng.random() < 0.12:
+                toks.append("fr=u0")  # re-dispatched in-process with the "length unknown" convention: ContentLength 0, non-nil body
             if hs:
                 toks.append("h=" + ";".join(hs))
             if method in ("POST", "PUT", "PATCH") and rng.random() < 0.3:
